@@ -203,9 +203,10 @@ def streamLoop (vstart : Nat) (s : Bytes) : Meta → Ctx → Nat → List Member
   | [], ctx, _, acc => (.ok acc.reverse, ctx)
   | (onum, ofs) :: t, ctx, i, acc =>
     if i > ofs then (.err .guard, ctx)                            -- parsed past the offset
-    -- `buf.set_cursor(*ofs)`: `self.start + ofs <= self.end` (debug-build add)
-    else if vstart + ofs ≥ usizeLimit then (.panic "set_cursor: add overflow", ctx)
+    -- `buf.set_cursor(*ofs)`: `if ofs <= self.end - self.start { self.ofs = self.start + ofs }`
+    -- (the comparison is view-relative since fix C17-02; the add is a debug-checked usize add)
     else if !(ofs ≤ s.length) then (.err .guard, ctx)
+    else if vstart + ofs ≥ usizeLimit then (.panic "set_cursor: add overflow", ctx)
     else
       match wsEOL true s ofs with
       | (.err k, _) => (.err k, ctx)
